@@ -251,6 +251,14 @@ class Explorer(object):
                 return outs
         if isinstance(test, ast.UnaryOp) and isinstance(test.op, ast.Not):
             return [(e, not b, lab) for (e, b, lab) in self.branch(test.operand, env)]
+        if isinstance(test, ast.Call) and norm(test.func) == "bool" and len(test.args) == 1 and not test.keywords:
+            return self.branch(test.args[0], env)
+        if isinstance(test, ast.IfExp):
+            outs = []
+            for (e1, b, lab) in self.branch(test.test, env):
+                for (e2, b2, lab2) in self.branch(test.body if b else test.orelse, e1):
+                    outs.append((e2, b2, _join([x for x in (lab, lab2) if x])))
+            return outs
         if isinstance(test, ast.Compare):
             if len(test.ops) == 2:
                 c1 = ast.Compare(left=test.left, ops=[test.ops[0]], comparators=[test.comparators[0]])
@@ -372,9 +380,18 @@ class Explorer(object):
             return [state]
         if isinstance(st, ast.Pass):
             return [state]
+        if isinstance(st, ast.Return) and st.value is not None and _boolean_shaped(st.value):
+            # a boolean expression is returned: one outcome per way it can evaluate (same splitting as an if-test)
+            for (e1, b, lab) in self.branch(st.value, env):
+                p1 = path + ([(lab, b)] if lab else [])
+                self._emit(Outcome("return", Const(b), e1, p1, events + ["return " + norm(st.value)], st.lineno))
+            return []
         if isinstance(st, ast.Return):
             v = self.ev(st.value, env) if st.value is not None else Const(None)
             self._emit(Outcome("return", v, env, path, events + ["return " + norm(st.value)], st.lineno))
+            return []
+        if isinstance(st, (ast.Continue, ast.Break)):
+            self._emit(Outcome("continue" if isinstance(st, ast.Continue) else "break", None, env, path, events, st.lineno))
             return []
         if isinstance(st, ast.Raise):
             self._emit(Outcome("raise", norm(st.exc.func) if isinstance(st.exc, ast.Call) else norm(st.exc), env, path, events, st.lineno))
@@ -480,3 +497,20 @@ def cut_points(fi, folder, sym=None):
                 if isinstance(v, int) and not isinstance(v, bool):
                     out.add(v)
     return sorted(out)
+
+
+def _boolean_shaped(e):
+    """an expression whose value is a truth value by construction"""
+    if isinstance(e, ast.Compare):
+        return True
+    if isinstance(e, ast.UnaryOp) and isinstance(e.op, ast.Not):
+        return True
+    if isinstance(e, ast.Call) and isinstance(e.func, ast.Name) and e.func.id == "bool" and len(e.args) == 1:
+        return True
+    if isinstance(e, ast.BoolOp):
+        return all(_boolean_shaped(v) for v in e.values)
+    if isinstance(e, ast.IfExp):
+        return _boolean_shaped(e.body) and _boolean_shaped(e.orelse)
+    if isinstance(e, ast.Constant) and isinstance(e.value, bool):
+        return True
+    return False
